@@ -79,6 +79,9 @@ def profile_obj(P, dtype=None):
         import hashlib
         h = int(hashlib.sha256(repr(P).encode()).hexdigest()[:4], 16) % 20
         dtype = content_dtype(P)[h]
+        mx = max((max(row) for row in P if row), default=0)
+        if mx > np.iinfo(dtype).max if np.issubdtype(dtype, np.integer) else False:
+            dtype = np.int64        # the storage type must be able to hold the ranks
     from harness.common import persist
     return persist("votes", relayout(np.array(P, dtype=dtype)), StrictCompleteProfile.of)
 
